@@ -425,6 +425,19 @@ func (s *levelsController) levelTargets() targets {
 		t.baseLevel++
 	}
 
+	// The base level must not lie below a non-empty level. The sizes above only look at the last
+	// level, so when that level shrinks (data deleted or expired and compacted away) or the DB is
+	// re-opened with bigger level sizes, the computed base level can move below levels which still
+	// hold tables. L0 would then be compacted past those levels: a tombstone dropped at the base
+	// level would bring back the older value that still sits in the skipped level. Lbase is the
+	// first non-empty level from the top, as described above.
+	for i := 1; i < t.baseLevel; i++ {
+		if s.levels[i].getTotalSize() > 0 {
+			t.baseLevel = i
+			break
+		}
+	}
+
 	// The base level must never be L0. For a very large LSM tree the size loop
 	// above can fail to assign a base level: it only sets baseLevel where
 	// adjust(dbSize) <= BaseLevelSize, and the smallest level it checks (L1)
